@@ -7,15 +7,22 @@
      TxIncluded   a valid transaction pooled by every validator at the start of such a phase is in a block once
                   every validator is 3 blocks past the highest block that existed at the start of the phase
                   (the first of those blocks may have been proposed before the phase began)
-   Events: init | accept | queued (block assembled by a validator, witness checked on its peers' ledgers) | feed | syncstart | syncround | syncend | txgiven ; other events are ignored here. *)
+   A height left over from an asynchronous period is exempt from Progress only while it is in dBFT 2.0's known dead
+   end: some validator is locked by a Commit sent in view v while another validator has already moved past v (it can
+   neither commit in v nor take the locked one along).  Any other stall under synchrony is a Progress violation.
+   Events: init | send | accept | queued (block assembled by a validator, witness checked on its peers' ledgers) | feed | syncstart | syncround | syncend | txgiven ; other events are ignored here. *)
 EXTENDS TraceIO, FiniteSets
 
-VARIABLES l, chain, sync
-vars == <<l, chain, sync>>
+VARIABLES l, chain, sync, cm, mv
+vars == <<l, chain, sync, cm, mv>>
 
 \* chain: function height -> block hash agreed so far;  sync: [on, base, rounds, bound, txs]
 NoSync == [on |-> FALSE, base |-> 0, rounds |-> 0, bound |-> 0, txs |-> {}, messy |-> FALSE, maxh0 |-> 0]
-Init == l = 1 /\ chain = <<>> /\ sync = NoSync
+Init == l = 1 /\ chain = <<>> /\ sync = NoSync /\ cm = {} /\ mv = {}
+
+\* cm: <<height, validator, view>> of every Commit sent;  mv: the same for every payload sent (views a validator was seen in)
+DeadEnd(h) == \E c \in cm, m \in mv : c[1] = h /\ m[1] = h /\ m[2] # c[2] /\ m[3] > c[3]
+DeadEndIn(lo, hi) == \E h \in lo..hi : DeadEnd(h)
 
 HasH(h) == h \in DOMAIN chain
 
@@ -23,34 +30,38 @@ Step ==
     /\ l <= Len(TLog)
     /\ l' = l + 1
     /\ LET e == TLog[l] IN
-       CASE e.event = "init" -> chain' = <<>> /\ sync' = NoSync
+       CASE e.event = "init" -> chain' = <<>> /\ sync' = NoSync /\ cm' = {} /\ mv' = {}
+         [] e.event = "send" ->
+              /\ mv' = mv \cup {<<e.h, e.from, e.view>>}
+              /\ cm' = IF e.type = "Commit" THEN cm \cup {<<e.h, e.from, e.view>>} ELSE cm
+              /\ UNCHANGED <<chain, sync>>
          [] e.event = "accept" ->
               /\ chain' = IF HasH(e.h) THEN chain ELSE (e.h :> e.hash) @@ chain
-              /\ UNCHANGED sync
+              /\ UNCHANGED <<sync, cm, mv>>
               /\ Report(l, NameIf(~HasH(e.h) \/ chain[e.h] = e.hash, "Agreement"), [ev |-> e])
          [] e.event = "feed" ->
-              /\ UNCHANGED <<chain, sync>>
+              /\ UNCHANGED <<chain, sync, cm, mv>>
               /\ Report(l, NameIf(e.ok, "Acceptable") \cup NameIf(~HasH(e.h) \/ chain[e.h] = e.hash, "Agreement"), [ev |-> e])
          [] e.event = "queued" ->
-              /\ UNCHANGED <<chain, sync>>
+              /\ UNCHANGED <<chain, sync, cm, mv>>
               /\ Report(l, NameIf(e.witness_ok, "Acceptable") \cup NameIf(~HasH(e.h) \/ chain[e.h] = e.hash, "Agreement"), [ev |-> e])
          [] e.event = "syncstart" ->
               /\ sync' = [on |-> TRUE, base |-> e.minh, rounds |-> 0, bound |-> e.bound, txs |-> {e.txs[i] : i \in DOMAIN e.txs},
                           messy |-> e.messy, maxh0 |-> e.maxh]
-              /\ UNCHANGED chain
+              /\ UNCHANGED <<chain, cm, mv>>
          [] e.event = "syncround" ->
-              /\ UNCHANGED chain
+              /\ UNCHANGED <<chain, cm, mv>>
               /\ IF e.minh > sync.base
                  THEN sync' = [sync EXCEPT !.base = e.minh, !.rounds = 0, !.txs = @ \ {e.included[i] : i \in DOMAIN e.included}]
                  ELSE sync' = [sync EXCEPT !.rounds = @ + 1, !.txs = @ \ {e.included[i] : i \in DOMAIN e.included}]
-              \* after an asynchronous period the height left over from it is outside the liveness clause ("when all validators
-              \* are honest and messages are delivered"): rounds are judged once every validator is past it
-              /\ Report(l, NameIf((sync.messy /\ e.minh <= sync.maxh0) \/ e.minh > sync.base \/ sync.rounds + 1 <= sync.bound, "Progress"),
+              \* after an asynchronous period a height left over from it that sits in the protocol's dead end is outside the
+              \* liveness clause ("when all validators are honest and messages are delivered")
+              /\ Report(l, NameIf((sync.messy /\ e.minh <= sync.maxh0 /\ DeadEndIn(e.minh + 1, sync.maxh0 + 1)) \/ e.minh > sync.base \/ sync.rounds + 1 <= sync.bound, "Progress"),
                         [ev |-> e, base |-> sync.base, rounds |-> sync.rounds])
          [] e.event = "syncend" ->
-              /\ sync' = NoSync /\ UNCHANGED chain
+              /\ sync' = NoSync /\ UNCHANGED <<chain, cm, mv>>
               /\ Report(l, NameIf(~e.reached \/ sync.txs = {}, "TxIncluded"), [ev |-> e, pending |-> sync.txs])
-         [] OTHER -> UNCHANGED <<chain, sync>>
+         [] OTHER -> UNCHANGED <<chain, sync, cm, mv>>
 
 TraceSpec == Init /\ [][Step]_vars
 =============================================================================
